@@ -60,6 +60,12 @@ def exc_value(cls, line, note=None):
     return V(EXC, cls, {"line": line, "note": note})
 
 
+def imp_value(cls, line, note=None):
+    """An internal error raised by the target's own operations (s[i], d[k], None.attr, assert ...):
+    the generic `Exception` clause of a contract does not cover it; it needs an explicit clause."""
+    return V(EXC, cls, {"line": line, "note": note, "implicit": True})
+
+
 class Core:
     def __init__(self, spec, target, tree=None, src=None, mutate=None):
         self.spec, self.target = spec, target
